@@ -223,6 +223,50 @@ func (w *W) c12Object(pj *simdjson.ParsedJson, l Loc, mo *ref.Value, cs *ev.Case
 			bad("FindKey", "value", fmt.Sprintf("FindKey(%q) is not the first member of that name: %s", k, d))
 		}
 	}
+	// the same Object value asked again and again (a lookup is a read: what one call found must not
+	// move where the next one starts): all keys last to first, an absent key, then first to last
+	if len(mo.Keys) >= 2 && len(mo.Keys) <= 40 {
+		if o, err := getObj(); err == nil {
+			firstOf := map[string]int{}
+			for i, k := range mo.Keys {
+				if _, ok := firstOf[string(k)]; !ok {
+					firstOf[string(k)] = i
+				}
+			}
+			ask := func(k []byte, phase string) bool {
+				w.Eval(1)
+				e := o.FindKey(string(k), nil)
+				i := firstOf[string(k)]
+				if e == nil {
+					bad("FindKey", "same-handle/present-key-nil", fmt.Sprintf("FindKey(%q) = nil on an Object value that answered other lookups before (%s); the object has that key at member %d", k, phase, i))
+					return false
+				}
+				got, err := valueOfElement(e)
+				if err != nil {
+					bad("FindKey", "same-handle/value-error", fmt.Sprintf("FindKey(%q) (%s): %v", k, phase, err))
+					return false
+				}
+				if d := ref.Diff(mo.Vals[i], got); d != "" {
+					bad("FindKey", "same-handle/value", fmt.Sprintf("FindKey(%q) on an Object value that answered other lookups before (%s) is not the first member of that name: %s", k, phase, d))
+					return false
+				}
+				return true
+			}
+			ok := true
+			for i := len(mo.Keys) - 1; i >= 0 && ok; i-- {
+				ok = ask(mo.Keys[i], "keys asked last to first")
+			}
+			if ok {
+				if e := o.FindKey("\x00absent", nil); e != nil {
+					bad("FindKey", "same-handle/absent-key-found", fmt.Sprintf("FindKey of an absent key returned %q", e.Name))
+				}
+				for i := 0; i < len(mo.Keys) && ok; i++ {
+					ok = ask(mo.Keys[i], "keys asked first to last after a full round and a miss")
+				}
+			}
+			w.Count("objects_with_lookup_sequences_on_one_handle", 1)
+		}
+	}
 	absent := []string{"\x00absent", "", "zz", "absent-key-that-is-long"}
 	for _, k := range mo.Keys {
 		if len(k) > 0 {
